@@ -1,119 +1,129 @@
 /-
-C08 — the resume point: the cursor a saved request is restored with is the cursor of the oldest
-window entry of its filter index that carries a cursor (else its own / its group's cursor), and the
-restored connection is `Ready` and queued.
+C08 — the resume point: the cursor a saved request is restored with is the LEAST cursor (tuple order)
+among the window entries of its filter index that carry one (else its own / its group's cursor), and
+the restored connection is `Ready` and queued.
 -/
 import Proofs.Lemmas.Router.Rp11_Reach
 namespace Router
 open Router.Rp3
 
-/-- the cursor of the first (oldest) window entry `(pkid, k, some cur)` of filter index `k` -/
-def oldestCursor (k : Nat) : List (Nat × Nat × Option Cursor) → Option Cursor
-  | [] => none
-  | (_, fi, cur) :: rest => if fi = k then cur.or (oldestCursor k rest) else oldestCursor k rest
+/-- tuple order of cursors `(segment, offset)` (the order of `cursorMin`, Rust's `Ord` on `(u64, u64)`) -/
+def cursorLe (a b : Cursor) : Prop := a.1 < b.1 ∨ (a.1 = b.1 ∧ a.2 ≤ b.2)
 
-theorem retx_oldest (k : Nat) : ∀ (l : List (Nat × Nat × Option Cursor)) (acc : List (Nat × Cursor)),
-    nlookup k (retransmissionMap l acc) = (nlookup k acc).or (oldestCursor k l)
-  | [], acc => by simp [retransmissionMap, oldestCursor]
-  | (_, fi, some c) :: rest, acc => by
-    simp only [retransmissionMap, oldestCursor]
-    split
-    · rename_i hs
-      rw [retx_oldest k rest acc]
-      by_cases hk : fi = k
-      · subst hk
-        obtain ⟨v, hv⟩ := Option.isSome_iff_exists.mp hs
-        simp [hv]
-      · simp [hk]
-    · rename_i hs
-      rw [retx_oldest k rest _, nlookup_append']
-      by_cases hk : fi = k
-      · subst hk
-        have : nlookup fi acc = none := by simpa using hs
-        simp [this, nlookup]
-      · simp [hk, nlookup]
-  | (_, fi, none) :: rest, acc => by
-    simp only [retransmissionMap, oldestCursor]
-    rw [retx_oldest k rest acc]
-    by_cases hk : fi = k <;> simp [hk]
+theorem cursorLe_refl (a : Cursor) : cursorLe a a := .inr ⟨rfl, Nat.le_refl _⟩
 
-/-- `retransmission_map` of a window, read at a filter index: the oldest cursor of that index -/
-theorem retx_lookup_oldest (k : Nat) (l : List (Nat × Nat × Option Cursor)) :
-    nlookup k (retransmissionMap l []) = oldestCursor k l := by
-  rw [retx_oldest]; simp [nlookup]
+theorem cursorLe_trans {a b c : Cursor} (h1 : cursorLe a b) (h2 : cursorLe b c) : cursorLe a c := by
+  unfold cursorLe at *
+  rcases h1 with h1 | ⟨e1, l1⟩ <;> rcases h2 with h2 | ⟨e2, l2⟩
+  · exact .inl (by omega)
+  · exact .inl (by omega)
+  · exact .inl (by omega)
+  · exact .inr ⟨by omega, by omega⟩
 
-/-- what "oldest" means: the window splits at the entry, and no earlier entry of the index carries a cursor -/
-theorem oldestCursor_some_iff (k : Nat) (cur : Cursor) : ∀ (l : List (Nat × Nat × Option Cursor)),
-    oldestCursor k l = some cur ↔
-      ∃ pre pk post, l = pre ++ (pk, k, some cur) :: post ∧ ∀ e ∈ pre, e.2.1 = k → e.2.2 = none
-  | [] => by simp [oldestCursor]
-  | (pk0, fi, c0) :: rest => by
-    simp only [oldestCursor]
-    have ih := oldestCursor_some_iff k cur rest
+theorem cursorMin_le_left (a b : Cursor) : cursorLe (cursorMin a b) a := by
+  unfold cursorMin
+  split
+  · exact cursorLe_refl a
+  · rename_i h
+    simp only [Bool.or_eq_true, decide_eq_true_eq, Bool.and_eq_true, beq_iff_eq, not_or, not_and, Nat.not_lt, Nat.not_le] at h
+    unfold cursorLe
+    by_cases e : b.1 = a.1
+    · exact .inr ⟨e, Nat.le_of_lt (h.2 e.symm)⟩
+    · exact .inl (by omega)
+
+theorem cursorMin_le_right (a b : Cursor) : cursorLe (cursorMin a b) b := by
+  unfold cursorMin
+  split
+  · rename_i h
+    simp only [Bool.or_eq_true, decide_eq_true_eq, Bool.and_eq_true, beq_iff_eq] at h
+    exact h
+  · exact cursorLe_refl b
+
+/-- the LEAST cursor (tuple order) among the window entries `(pkid, k, some cur)` of filter index `k` -/
+def leastCursor (k : Nat) (w : List (Nat × Nat × Option Cursor)) : Option Cursor := leastFrom k w none
+
+/-- `retransmission_map` of a window, read at a filter index: the least cursor of that index -/
+theorem retx_lookup_least (k : Nat) (l : List (Nat × Nat × Option Cursor)) :
+    nlookup k (retransmissionMap l []) = leastCursor k l := by
+  rw [retx_leastFrom]; rfl
+
+theorem leastFrom_le (k : Nat) (c : Cursor) : ∀ (l : List (Nat × Nat × Option Cursor)) (init : Option Cursor),
+    leastFrom k l init = some c →
+    (∀ i, init = some i → cursorLe c i) ∧ ∀ e ∈ l, e.2.1 = k → ∀ cur, e.2.2 = some cur → cursorLe c cur
+  | [], init, h => ⟨fun i hi => by
+      have h' : init = some c := h
+      rw [h'] at hi; cases hi; exact cursorLe_refl c, fun _ he => absurd he List.not_mem_nil⟩
+  | (pk, fi, cur0) :: rest, init, h => by
+    simp only [leastFrom] at h
+    obtain ⟨h1, h2⟩ := leastFrom_le k c rest _ h
     by_cases hk : fi = k
-    · subst hk
-      rw [if_pos rfl]
-      cases c0 with
-      | some c =>
-        have e0 : (some c).or (oldestCursor fi rest) = some c := rfl
-        rw [e0, Option.some.injEq]
-        constructor
-        · rintro rfl; exact ⟨[], pk0, rest, rfl, by simp⟩
-        · rintro ⟨pre, pk, post, e, hpre⟩
-          cases pre with
-          | nil => simp only [List.nil_append, List.cons.injEq, Prod.mk.injEq, Option.some.injEq] at e; exact e.1.2.2
-          | cons x xs =>
-            simp only [List.cons_append, List.cons.injEq] at e
-            have := hpre x (by simp) (by rw [← e.1])
-            rw [← e.1] at this; cases this
-      | none =>
-        have e0 : (none : Option Cursor).or (oldestCursor fi rest) = oldestCursor fi rest := by
-          cases oldestCursor fi rest <;> rfl
-        rw [e0, ih]
-        constructor
-        · rintro ⟨pre, pk, post, e, hpre⟩
-          refine ⟨(pk0, fi, none) :: pre, pk, post, by rw [e]; rfl, fun x hx hxk => ?_⟩
-          rcases List.mem_cons.mp hx with rfl | hx
-          · rfl
-          · exact hpre x hx hxk
-        · rintro ⟨pre, pk, post, e, hpre⟩
-          cases pre with
-          | nil => simp at e
-          | cons x xs =>
-            simp only [List.cons_append, List.cons.injEq] at e
-            exact ⟨xs, pk, post, e.2, fun y hy => hpre y (List.mem_cons_of_mem _ hy)⟩
-    · simp only [hk, if_false]
-      rw [ih]
-      constructor
-      · rintro ⟨pre, pk, post, e, hpre⟩
-        refine ⟨(pk0, fi, c0) :: pre, pk, post, by rw [e]; rfl, fun x hx hxk => ?_⟩
-        rcases List.mem_cons.mp hx with rfl | hx
-        · exact absurd hxk hk
-        · exact hpre x hx hxk
-      · rintro ⟨pre, pk, post, e, hpre⟩
-        cases pre with
-        | nil =>
-          simp only [List.nil_append, List.cons.injEq, Prod.mk.injEq] at e
-          exact absurd e.1.2.1 hk
-        | cons x xs =>
-          simp only [List.cons_append, List.cons.injEq] at e
-          exact ⟨xs, pk, post, e.2, fun y hy => hpre y (List.mem_cons_of_mem _ hy)⟩
+    · simp only [hk, if_true] at h1
+      refine ⟨fun i hi => ?_, fun e he hi cur hc => ?_⟩
+      · subst hi
+        cases cur0 with
+        | none => exact h1 i rfl
+        | some c' => exact cursorLe_trans (h1 _ rfl) (cursorMin_le_left i c')
+      · rcases List.mem_cons.mp he with rfl | he'
+        · simp only [] at hc; subst hc
+          cases init with
+          | none => exact h1 cur rfl
+          | some i => exact cursorLe_trans (h1 _ rfl) (cursorMin_le_right i cur)
+        · exact h2 e he' hi cur hc
+    · simp only [hk, if_false] at h1
+      refine ⟨h1, fun e he hi cur hc => ?_⟩
+      rcases List.mem_cons.mp he with rfl | he'
+      · exact absurd hi hk
+      · exact h2 e he' hi cur hc
 
-theorem oldestCursor_none_iff (k : Nat) : ∀ (l : List (Nat × Nat × Option Cursor)),
-    oldestCursor k l = none ↔ ∀ e ∈ l, e.2.1 = k → e.2.2 = none
-  | [] => by simp [oldestCursor]
-  | (pk, fi, cur) :: rest => by
-    simp only [oldestCursor, List.mem_cons, forall_eq_or_imp]
+theorem leastFrom_none (k : Nat) : ∀ (l : List (Nat × Nat × Option Cursor)) (init : Option Cursor),
+    leastFrom k l init = none ↔ init = none ∧ ∀ e ∈ l, e.2.1 = k → e.2.2 = none
+  | [], init => by simp [leastFrom]
+  | (pk, fi, cur0) :: rest, init => by
+    simp only [leastFrom, List.mem_cons, forall_eq_or_imp]
+    rw [leastFrom_none k rest]
     by_cases hk : fi = k
     · simp only [hk, if_true, true_imp_iff]
-      rw [← oldestCursor_none_iff k rest]
-      cases cur <;> simp
+      cases init <;> cases cur0 <;> simp [optMin]
     · simp only [hk, if_false, false_imp_iff, true_and]
-      exact oldestCursor_none_iff k rest
+
+/-- what "least" means: it is the cursor of a window entry of the index, and it is at or below (tuple
+    order) the cursor of every window entry of the index -/
+theorem leastCursor_some_iff (k : Nat) (cur : Cursor) (w : List (Nat × Nat × Option Cursor)) :
+    leastCursor k w = some cur ↔
+      (∃ e ∈ w, e.2.1 = k ∧ e.2.2 = some cur) ∧ ∀ e ∈ w, e.2.1 = k → ∀ c, e.2.2 = some c → cursorLe cur c := by
+  constructor
+  · intro h
+    refine ⟨?_, (leastFrom_le k cur w none h).2⟩
+    rcases leastFrom_mem k cur w none h with h0 | h0
+    · cases h0
+    · exact h0
+  · rintro ⟨⟨e, he, hi, hc⟩, hle⟩
+    cases hl : leastCursor k w with
+    | none =>
+      have := ((leastFrom_none k w none).mp hl).2 e he hi
+      rw [hc] at this; cases this
+    | some c0 =>
+      -- both are at or below each other
+      have h1 := (leastFrom_le k c0 w none hl).2 e he hi cur hc
+      rcases leastFrom_mem k c0 w none hl with h0 | ⟨e0, he0, hi0, hc0⟩
+      · cases h0
+      · have h2 := hle e0 he0 hi0 c0 hc0
+        have : c0 = cur := by
+          unfold cursorLe at h1 h2
+          obtain ⟨a1, a2⟩ := c0; obtain ⟨b1, b2⟩ := cur
+          simp only [] at h1 h2
+          have e1 : a1 = b1 := by omega
+          have e2 : a2 = b2 := by omega
+          rw [e1, e2]
+        rw [this]
+
+theorem leastCursor_none_iff (k : Nat) (w : List (Nat × Nat × Option Cursor)) :
+    leastCursor k w = none ↔ ∀ e ∈ w, e.2.1 = k → e.2.2 = none := by
+  unfold leastCursor; rw [leastFrom_none]; simp
 
 /-- the resume point of a request `q` of a connection with outgoing window `w`, groups `sh` -/
 def resumeCursor (sh : List (String × SharedGroup)) (w : List (Nat × Nat × Option Cursor)) (q : DataRequest) : Cursor :=
-  match oldestCursor q.filterIdx w with
+  match leastCursor q.filterIdx w with
   | some cur => cur
   | none => (atGroupCursor sh q).cursor
 
@@ -129,8 +139,8 @@ theorem savedOf_fields (sh : List (String × SharedGroup)) (w : List (Nat × Nat
   obtain ⟨b1, b2, b3, b4, b5, b6⟩ := rewindOne_fields (retransmissionMap w []) (atGroupCursor sh q)
   refine ⟨b1.trans a1, b2.trans a2, b3.trans a3, b4.trans a4, b5.trans a5, ?_⟩
   unfold savedOf resumeCursor
-  rw [b6, a2, retx_lookup_oldest]
-  cases oldestCursor q.filterIdx w <;> rfl
+  rw [b6, a2, retx_lookup_least]
+  cases leastCursor q.filterIdx w <;> rfl
 
 theorem savedOf_mem {s : RState} {id : Nat} {c : Conn} {q : DataRequest}
     (hq : q ∈ c.tracker.requests ++ (datalogClean s.datalog id).2) :
